@@ -164,6 +164,16 @@ def rand_universe(rng, o=None, uid=0):
                     fields.append([fn, {'attr': rand_prim(rng, o, allow_occ=False)}])
                 else:
                     fields.append([fn, rand_tspec(rng, o, [t for t in types if True], o.max_depth - 1)])
+        if getattr(o, 'choice_groups', False) and not has_xmldata and rng.random() < .5:
+            # members that form an xs:choice: at most one of them carries a value
+            cands = [f for f in fields if 'attr' not in f[1] and 'xmldata' not in f[1]]
+            if len(cands) >= 2:
+                # (declared next to each other: the group has one place in the element sequence)
+                n_ = rng.randint(2, min(3, len(cands)))
+                st_ = rng.randint(0, len(cands) - n_)
+                for f in cands[st_:st_ + n_]:
+                    f[1]['choice'] = 'g%d' % i
+                    f[1].pop('min_occurs', None) if f[1].get('min_occurs') else None
         ns = nss[0] if base is None else next(t['ns'] for t in types if t['name'] == base)
         if base is None and rng.random() < .5:
             ns = rng.choice(nss)
@@ -216,7 +226,13 @@ def rand_universe(rng, o=None, uid=0):
                 if rng.random() < .3 and len(rets) > 1:
                     md['out_variable_names'] = ['o%d_%s' % (i, mname) for i in range(len(rets))]
             methods.append(md)
-        services.append({'name': 'Svc%d' % s, 'methods': methods})
+        sd_ = {'name': 'Svc%d' % s, 'methods': methods}
+        if getattr(o, 'port_types', False) and len(methods) >= 2 and rng.random() < .5:
+            # a service with several port types: every method names the one it belongs to
+            sd_['port_types'] = ['Pt%d_%d' % (s, k) for k in range(rng.randint(2, 3))]
+            for md_ in methods:
+                md_['port_type'] = rng.choice(sd_['port_types'])
+        services.append(sd_)
     ir = {'uid': uid, 'tns': nss[0], 'types': types, 'services': services}
     if o.headers:
         ir['faults'] = [{'name': 'F0', 'ns': nss[0]}, {'name': 'F1', 'ns': nss[-1]}]
@@ -260,6 +276,8 @@ class Built(object):
             kw['min_occurs'] = t['min_occurs']
         if 'nillable' in t:
             kw['nillable'] = t['nillable']
+        if 'choice' in t:
+            kw['xml_choice_group'] = t['choice']
         if 'prim' in t:
             kind = t['prim']
             cls = ByteArray if kind == 'ByteArray' else getattr(P, kind)
@@ -311,6 +329,8 @@ class Built(object):
             for md in sd['methods']:
                 d[md['name']] = self._make_method(md)
                 self.methods[md['name']] = md
+            if sd.get('port_types'):
+                d['__port_types__'] = tuple(sd['port_types'])
             self.services.append(type(str('%su%d' % (sd['name'], uid)), (Service,), d))
 
     def grow(self, ir):
@@ -352,6 +372,8 @@ class Built(object):
                 kw[k] = tuple(self.classes[n] for n in header_names(md, k[1:]))      # (the decorator asserts a tuple)
         if md.get('throws'):
             kw['_throws'] = [self.faults[f] for f in md['throws']]
+        if md.get('port_type'):
+            kw['_port_type'] = md['port_type']
         return rpc(*params, **kw)(fn)
 
     def app(self, in_protocol, out_protocol, name=None):
@@ -614,7 +636,14 @@ def gen_value(rng, ir, t, depth=3, top=False, alphabet='xml', subclass_ok=False)
             name = rng.choice(subs)
         out = {'__class__': name}
         prev = {}
+        groups = {}
         for fn, ft in all_fields(ir, name):
+            if 'choice' in ft:
+                groups.setdefault(ft['choice'], []).append(fn)
+        chosen = {g: rng.choice(ms) for g, ms in sorted(groups.items())}
+        for fn, ft in all_fields(ir, name):
+            if 'choice' in ft and chosen[ft['choice']] != fn:
+                continue
             v = gen_value(rng, ir, ft, depth - 1, alphabet=alphabet, subclass_ok=subclass_ok)
             if v is not None:
                 # aliasing: two members of the same declared class may refer to one and the same object
